@@ -117,6 +117,47 @@ def case(rng: Any, ctx: Ctx, index: int) -> None:
     LOG.sample({'expr': dense.describe(op), 'out': dense.struct_str(dense.struct_of(y))})
 
 
+def case_pattern(rng: Any, ctx: Ctx, index: int) -> None:
+    """Documented patterns (and near misses) in short contexts: the reduced operator must declare, and return, the
+    structures of the unreduced expression."""
+    from furax._base.core import CompositionOperator
+
+    from .. import patterns
+    gen.begin_case(rng)
+    names = sorted(patterns.PATTERNS)
+    name = names[(index // max(1, ctx.nshards)) % len(names)]
+    tag, seg = patterns.PATTERNS[name](rng)
+    out = patterns.embed(rng, [seg], int(rng.integers(0, 2)), 0, int(rng.integers(0, 2)), scalars=int(rng.integers(0, 2)))
+    if out is None:
+        return
+    ops, _ = out
+    if len(ops) < 2 or any(dense.size_of(o.out_structure()) > 48 for o in ops):
+        return
+    e = CompositionOperator(list(ops))
+    if gen.well_typed(e):
+        return
+    LOG.case_key(f'pattern:{tag}:x64={ctx.x64}', True)
+    LOG.count('C05.pattern', tag.split('/')[0])
+    x = gen.rand_input(rng, e.in_structure())
+    y = e.mv(x)                                            # monitored
+    r = e.reduce()
+    yr = r.mv(x)                                           # monitored: the reduced operator on the same input
+    guarded('C05.declared', lambda: check_declared(r))
+    LOG.evaluated('C05.variant')
+    if not (dense.struct_eq_loose(r.in_structure(), e.in_structure()) and dense.struct_eq_loose(r.out_structure(), e.out_structure())
+            and dense.struct_eq_loose(dense.struct_of(yr), dense.struct_of(y))):
+        LOG.violation('C05', 'C05.variant', f'{tag.split("/")[0]}.reduce/structures',
+                      'the reduced operator declares or returns other structures than the unreduced expression',
+                      expr=dense.describe(e), result=dense.describe(r), got=dense.struct_str(dense.struct_of(yr)), expected=dense.struct_str(dense.struct_of(y)))
+
+
+def case_mix(rng: Any, ctx: Ctx, index: int) -> None:
+    if index % 5 == 4:
+        case_pattern(rng, ctx, index // 5)
+    else:
+        case(rng, ctx, index - index // 5)
+
+
 def run(ctx: Ctx) -> None:
     enable('structure')
-    drive(ctx, case, 1600, 16000)
+    drive(ctx, case_mix, 2000, 20000)
